@@ -1,7 +1,7 @@
 (* C13 -- data channel lifecycle: faithful open, forward-only states.
    Property theorems only; proofs in Proof/ChanDcepP.v, Proof/ChanP.v and Proof/ChanBufP.v. *)
 From Coq Require Import ZArith List Bool.
-From AV Require Import Lib.Bytes Gen.SctpConst Model.Chan Proof.ChanDcepP Proof.ChanP Proof.ChanBufP.
+From AV Require Import Lib.Bytes Gen.SctpConst Model.Chan Proof.ChanDcepP Proof.ChanP Proof.ChanBufP Proof.ChanOpenP.
 Import ListNotations.
 Local Open Scope Z_scope.
 
@@ -110,10 +110,34 @@ Theorem C13_never_keyerror : forall role seq is, Forall wf_input is ->
 Proof. exact never_keyerror. Qed.
 Print Assumptions C13_never_keyerror.
 
-(* PARTIAL (not theorems; observed by the correspondence and the two-endpoint oracle):
-   "exactly one datachannel event on the other side", ids of the TWO sides never
-   collide (needs both endpoints: the model is one endpoint; parity per role is
-   theorem 6) and the close protocol across two endpoints (refuted on the real code
+(* 7. The receiving side of an open.  When the OPEN message built by theorem 1 for ANY channel
+   parameters arrives on a stream that has no channel, in ANY state of the endpoint and under
+   any congestion oracle: exactly one `datachannel` event is emitted, for a new channel that is
+   open, registered under the opener's stream id, not negotiated, and has exactly the opener's
+   ordering, maxRetransmits, maxPacketLifeTime, label and protocol.  An OPEN arriving on a
+   stream that already has a channel (a duplicate, or a collision) is ignored altogether. *)
+Theorem C13_open_creates_one_channel : forall s sidv c oracle, wf_chan c -> tget (table s) sidv = None ->
+  let h := length (chans s) in
+  let s' := fst (recv_dcep s sidv (dcep_open c) true oracle) in
+  let evs := snd (recv_dcep s sidv (dcep_open c) true oracle) in
+  filter is_dc evs = [EvDataChannel h] /\
+  ch_id (getc s' h) = Some sidv /\ ch_state (getc s' h) = Open /\ ch_neg (getc s' h) = false /\
+  ch_ordered (getc s' h) = ch_ordered c /\ ch_maxrt (getc s' h) = ch_maxrt c /\ ch_maxlt (getc s' h) = ch_maxlt c /\
+  ch_label (getc s' h) = ch_label c /\ ch_proto (getc s' h) = ch_proto c /\
+  tget (table s') sidv = Some h.
+Proof. exact open_creates_one_channel. Qed.
+Print Assumptions C13_open_creates_one_channel.
+
+Theorem C13_repeated_open_ignored : forall s sidv h data ok oracle, tget (table s) sidv = Some h ->
+  hd 0 data = DATA_CHANNEL_OPEN -> 12 <= len data -> recv_dcep s sidv data ok oracle = (s, []).
+Proof. exact repeated_open_ignored. Qed.
+Print Assumptions C13_repeated_open_ignored.
+
+(* PARTIAL (not theorems; observed by the correspondence and the two-endpoint oracle): that
+   the OPEN actually reaches the peer exactly once is C01's ordered exactly-once delivery on
+   the channel's stream composed with theorems 1 and 7 (composition not mechanised); ids of
+   the TWO sides never collide (needs both endpoints: the model is one endpoint; parity per
+   role is theorem 6) and the close protocol across two endpoints (refuted on the real code
    by known findings K4, K9, K10). *)
 
 (* non-vacuity: create, establish, flush (id 1 assigned, OPEN sent), ACK received,
